@@ -113,6 +113,7 @@ func c04(args []string) int {
 				}(k)
 			}
 			wg.Wait()
+			reportPanics(run, "c04", map[string]interface{}{"config": c})
 			for k, q := range reqs {
 				a := answers[k]
 				rep := map[string]interface{}{"config": c, "request": q, "got_vhost": a.vh, "got_route": a.one, "got_all": a.all}
